@@ -95,6 +95,8 @@ def evolve(rnd, g, ir, compatible_only):
             if r["fields"]:
                 f = rnd.choice(r["fields"])
                 old = f["name"]
+                if any(old in x.get("aliases", []) for x in r["fields"] if x is not f):
+                    continue          # a sibling already claims this name as an alias: two fields with one alias would be ambiguous
                 f["name"] = old + "_renamed"
                 if st == "rename_alias":
                     f["aliases"] = list(f.get("aliases", [])) + [old]
@@ -239,9 +241,34 @@ def evolve(rnd, g, ir, compatible_only):
                                    {"name": "evolved_%d" % rnd.randint(0, 99), "type": {"k": "prim", "name": "string"}, "hasdef": True,
                                     "default": rnd.choice(["", "dflt é"]), "aliases": []})
             return ir, st
+        elif st == "alias_collision" and records:
+            # a reader field gains an alias equal to the NAME of a sibling field: fields are matched by name first, so nothing changes
+            cands = [x for x in records if len(x["fields"]) >= 2]
+            if not cands:
+                continue
+            r = rnd.choice(cands)
+            f1, f2 = rnd.sample(r["fields"], 2)
+            if any(f2["name"] in x.get("aliases", []) for x in r["fields"]):
+                continue
+            f1["aliases"] = list(f1.get("aliases", [])) + [f2["name"]]
+            return ir, st
         elif st == "field_alias_swap":
             continue
     return ir, None
+
+
+def alias_collision_final(rnd, ir):
+    """After all other steps: a reader field gains an alias equal to the NAME of a sibling field that is still there. Fields are matched
+    by name first, so nothing changes. Returns True when applied."""
+    records = [n for _, _, n in positions(ir) if n["k"] == "record" and len(n["fields"]) >= 2]
+    if not records:
+        return False
+    r = rnd.choice(records)
+    f1, f2 = rnd.sample(r["fields"], 2)
+    if any(f2["name"] in x.get("aliases", []) for x in r["fields"]):
+        return False
+    f1["aliases"] = list(f1.get("aliases", [])) + [f2["name"]]
+    return True
 
 
 def normalize_defs(ir):
@@ -371,6 +398,8 @@ def run_c08(ctx, fa):
             rir, st = evolve(rnd, gr, rir, only_compat)
             if st:
                 applied.append(st)
+        if rnd.random() < 0.1 and alias_collision_final(rnd, rir):
+            applied.append("alias_collision")
         try:
             rraw = gr.render(rir)
         except KeyError:
